@@ -9,5 +9,7 @@ def P(name, pkg, run, shards=None, budget=None, overlay=None, gomaxprocs=None):
 
 CHECKS = {
     "C01": {"parts": [P("lookup", "./c01", "^TestC01$")]},
+    "C02": {"parts": [P("quorum-intersection", "./c02", "^TestC02$")]},
+    "C03": {"parts": [P("instance-ring", "./c03", "^TestC03Instances$"), P("partition-ring", "./c03", "^TestC03Partitions$")]},
     "C14": {"parts": [P("instance-ranges", "./c14", "^TestC14Instances$"), P("partition-ranges", "./c14", "^TestC14Partitions$")]},
 }
